@@ -187,6 +187,10 @@ def monitors_child(rec):
             return np.tile(nrng.integers(0, 4, size=(1, m)).astype(float), (n, 1))
         return np.round(nrng.normal(size=(n, m)), 3)
     EPS_FOR = dict(ties=[1e-8, 1e-6, 1e-3, 0.25], same=[1e-8, 1e-6, 1e-3, 0.25], grid=[1e-8, 1e-6, 1e-3, 0.1], cont=[1e-8, 1e-6, 1e-4])
+    DD = child.Distinct()
+    for fn in ('dscore', 'pit', 'cramer_von_mises_test', 'anderson_darling_test', 'alpha'):
+        DD.wrap(M, fn)
+    DD.wrap(cs, 'ensrank')
     # ---- ensrank against the oracle
     child.progress('ensrank'); ev = 0; bad = 0
     for _ in range(250 if quick else 2500):
@@ -200,7 +204,7 @@ def monitors_child(rec):
         iu = np.triu_indices(n, 1)
         if ierr != 0 or not np.allclose(fmat[iu], F[iu], atol=1e-12) or not np.allclose(ranks, R, atol=1e-12):
             bad += 1; _fail(rec, 'ensrank', 'ranks: fmat / ranks differ from the pairwise mid-rank comparison of Weigel and Mason', sim=sim.tolist(), eps=eps, observed=dict(fmat=fmat.tolist(), ranks=ranks.tolist()), expected=dict(fmat=F.tolist(), ranks=R.tolist()))
-    rec.bounded_clause('ensrank: fmat and ranks equal the pairwise mid-rank comparison of Weigel and Mason (2011)', '2..10 forecasts x 1..8 members, heavy ties / lattice / identical ensembles / continuous', ev, ev, False, bad)
+    rec.bounded_clause('ensrank: fmat and ranks equal the pairwise mid-rank comparison of Weigel and Mason (2011)', '2..10 forecasts x 1..8 members, heavy ties / lattice / identical ensembles / continuous', ev, DD.n('ensrank'), False, bad)
     # ---- dscore
     child.progress('dscore'); ev = 0; bad = 0
     maps = [('exp', np.exp), ('arctan', np.arctan), ('cubic', lambda x: x ** 3 + x), ('affine', lambda x: 2.5 * x - 7.0)]
@@ -236,7 +240,7 @@ def monitors_child(rec):
         if abs(dp - 1) > 1e-12 or abs(di) > 1e-12:
             bad += 1; _fail(rec, 'dscore', 'endpoints: perfectly / inversely ordered forecasts score %r / %r instead of 1 / 0' % (dp, di), obs=ob.tolist(), members=m)
     rec.bounded_clause('dscore: in [0, 1], 1 / 0 for perfectly / inversely ordered forecasts, unchanged by exp / arctan / cubic / affine maps of observations or forecasts and by member permutations',
-                       '2..20 forecasts x 1..6 members, ties / lattice / identical ensembles / continuous, tied observations', ev, ev, False, bad)
+                       '2..20 forecasts x 1..6 members, ties / lattice / identical ensembles / continuous, tied observations', ev, DD.n('dscore'), False, bad)
     # ---- pit
     child.progress('pit'); ev = 0; bad = 0
     for _ in range(200 if quick else 2000):
@@ -260,7 +264,7 @@ def monitors_child(rec):
                 ok = ok and np.all(p >= lo - 1e-12) and np.all(p <= hi + 1e-12)
             if not ok:
                 bad += 1; _fail(rec, 'pit', 'pit: range / monotonicity in the number of members below / pseudo flag (random=%s)' % rnd_, obs=obs.tolist(), ens=ens.tolist(), cst=cst, censor=cen, observed=dict(pit=p.tolist(), sudo=s.tolist()))
-    rec.bounded_clause('pit (random False / True): values in [0, 1], strictly increasing with the number of members below the observation, pseudo flag exact', '2..15 forecasts x 1..10 members on an integer lattice, 4 thresholds, 3 constants', ev, ev, False, bad)
+    rec.bounded_clause('pit (random False / True): values in [0, 1], strictly increasing with the number of members below the observation, pseudo flag exact', '2..15 forecasts x 1..10 members on an integer lattice, 4 thresholds, 3 constants', ev, DD.n('pit'), False, bad)
     # ---- uniformity statistics
     child.progress('cvm-ad'); ev = 0; bad = 0
     for _ in range(200 if quick else 2000):
@@ -286,7 +290,7 @@ def monitors_child(rec):
         except ValueError:
             pass
     rec.bounded_clause('cramer_von_mises_test / anderson_darling_test: statistic == textbook formula in any order of the data, p-values in [0, 1], data outside [0, 1] / NaN rejected (AD)',
-                       'samples of 1..300 values in (0, 1), rounded (tied) and continuous, three orders', ev, ev, False, bad)
+                       'samples of 1..300 values in (0, 1), rounded (tied) and continuous, three orders', ev, DD.n('cramer_von_mises_test', 'anderson_darling_test'), False, bad)
     # ---- alpha
     child.progress('alpha'); ev = 0; bad = 0
     for _ in range(40 if quick else 400):
@@ -297,7 +301,7 @@ def monitors_child(rec):
             st, pv, sd = M.alpha(obs, ens, type=tp); ev += 1
             if not (0 <= pv <= 1 and np.isfinite(st) and len(sd) == n):
                 bad += 1; _fail(rec, 'alpha', 'pvalue: p-value of alpha (%s) outside [0, 1]' % tp, obs=obs.tolist()[:30], observed=dict(stat=float(st), p=float(pv)))
-    rec.bounded_clause('alpha: p-values in [0, 1] for the CV / KS / AD variants', '5..80 forecasts x 1..20 members, 40 draws', ev, ev, False, bad)
+    rec.bounded_clause('alpha: p-values in [0, 1] for the CV / KS / AD variants', '5..80 forecasts x 1..20 members, 40 draws', ev, DD.n('alpha'), False, bad)
 
 
 def run(tier):
